@@ -13,49 +13,52 @@ namespace SFV.C09
 
 open SFV.Eng
 
-variable (cp : Compiler) (progs : Nat → Prog) (outc : Nat → List Rat) (args : List (String × Rat))
+variable (cp : Compiler) (progs : Nat → Prog) (outc : Outc) (o : Nat → List (List Rat)) (args : List (String × Rat))
+  (kw : RunKw)
 
 /-- **one call with a list = successive calls.**  For every engine state, every world and all lists
 of programs: `run (l1 ++ l2)` fails exactly when `run l1; run l2` fails (with the same error) and
 otherwise ends in the same engine state and the same programs' state, having made the same back-end
 calls except for the read-only `state` query that closes the first `run`. -/
-theorem seq_compositional (l1 l2 : List Nat) (e : Eng) (w : World) :
-    run cp progs outc args e w (l1 ++ l2) =
-      match run cp progs outc args e w l1 with
+theorem seq_compositional (l1 l2 : List Nat) (e : Eng) (w : World)
+    (hs1 : effShots progs kw l1 = effShots progs kw (l1 ++ l2))
+    (hs2 : effShots progs kw l2 = effShots progs kw (l1 ++ l2))
+    (hpre : preCheck progs (effShots progs kw (l1 ++ l2)) (l1 ++ l2) = false) :
+    run cp progs o args kw e w (l1 ++ l2) =
+      match run cp progs o args kw e w l1 with
       | .error err => .error err
       | .ok (e1, w1, t1) =>
-        match run cp progs outc args e1 w1 l2 with
+        match run cp progs o args kw e1 w1 l2 with
         | .error err => .error err
-        | .ok (e2, w2, t2) => .ok (e2, w2, t1.dropLast ++ t2) :=
-  run_append cp progs outc args l1 l2 e w
+        | .ok (e2, w2, t2) => .ok (e2, w2, t1.take (t1.length - (stateCalls kw).length) ++ t2) :=
+  run_append cp progs o args kw l1 l2 e w hs1 hs2 hpre
 
 /-- … hence the same state-changing calls reach the back end. -/
 theorem seq_same_mutations (l1 l2 : List Nat) (e e1 e2 : Eng) (w w1 w2 : World) (t1 t2 : List Call)
-    (h1 : run cp progs outc args e w l1 = .ok (e1, w1, t1))
-    (h2 : run cp progs outc args e1 w1 l2 = .ok (e2, w2, t2)) :
-    ∃ t, run cp progs outc args e w (l1 ++ l2) = .ok (e2, w2, t) ∧ mutating t = mutating (t1 ++ t2) := by
-  refine ⟨t1.dropLast ++ t2, by rw [run_append, h1]; simp only [h2], ?_⟩
+    (hs1 : effShots progs kw l1 = effShots progs kw (l1 ++ l2))
+    (hs2 : effShots progs kw l2 = effShots progs kw (l1 ++ l2))
+    (hpre : preCheck progs (effShots progs kw (l1 ++ l2)) (l1 ++ l2) = false)
+    (h1 : run cp progs o args kw e w l1 = .ok (e1, w1, t1))
+    (h2 : run cp progs o args kw e1 w1 l2 = .ok (e2, w2, t2)) :
+    ∃ t, run cp progs o args kw e w (l1 ++ l2) = .ok (e2, w2, t) ∧ mutating t = mutating (t1 ++ t2) := by
+  refine ⟨t1.take (t1.length - (stateCalls kw).length) ++ t2,
+    by rw [run_append cp progs o args kw l1 l2 e w hs1 hs2 hpre, h1]; simp only [h2], ?_⟩
   conv => rhs; rw [run_trace_ends h1]
-  simp only [mutating_append, mutating_state, List.append_nil]
+  simp only [mutating_append, mutating_stateCalls, List.append_nil]
 
-/- **two segments = the concatenated program**, full statement: for all programs, on every back end,
-
-    run [p1, p2] = ok (ea, _, ta) → run [p1 ++ p2] = ok (eb, _, tb) → ta = tb ∧ …
-
-   It is FALSE on the bosonic back end, which re-initialises the simulator for every segment (known
-   finding `bosonic-segment-reinit`, `concat_bosonic_counterexample` below).  Since the engine hands the
-   latest measured value of each subsystem over to the next segment (SF commit 1cfe20c) no hypothesis
-   about the hand-over is needed any more; the remaining hypotheses besides "not bosonic" are structural
-   facts true of every constructible pair of programs. -/
-
-/-- **two segments = the concatenated program** (Fock and Gaussian engines; all programs, all engine
-histories, feed-forward across the segment boundary included): same call trace — including the closing
-`state` query — same position in the outcome stream, same final register.  Hypotheses: `p12` is the
-concatenation (`hc hn hir hr`), `p1`/`p2` are different objects, `p1` and `p12` start with the same
-stored values and free-parameter bindings (e.g. never run), the compiled circuits read only subsystems
-that exist in `p1`'s final register, and `p2`'s register extends it. -/
-theorem concat_compositional_partial {e : Eng} {w : World} {i1 i2 i12 : Nat} {circ1 circ2 : List Cmd}
-    (hbk : e.bk ≠ .bosonic)
+/-- **two segments = the concatenated program**, at full strength: on every back end, for all programs —
+feed-forward across the segment boundary included — and every engine history, `run [p1, p2]` and
+`run [p1 ++ p2]` make the same call trace (including the closing `state` query), end at the same
+position of the outcome stream and with the same final register.  (Holds since SF commits 1cfe20c —
+per-subsystem hand-over — and the bosonic continuation fix; before them the statement needed the
+hypotheses `HandOverOK` and "not bosonic".)  Hypotheses, all structural facts true of every constructible
+pair of programs: `p12` is the concatenation (`hc hn hir hr`), `p1`/`p2` are different objects, `p1` and
+`p12` start with the same stored values and free-parameter bindings (e.g. never run), the compiled
+circuits read only subsystems that exist in `p1`'s final register, and `p2`'s register extends it;
+on the bosonic engine the first program is not empty unless a computation is already under way
+(an empty bosonic first program is initialised with the *second* program's mode count). -/
+theorem concat_compositional {e : Eng} {w : World} {i1 i2 i12 : Nat} {circ1 circ2 : List Cmd}
+    (hbk : e.bk = .bosonic → e.contd = true ∨ circ1 ≠ [])
     (hc : (progs i12).circuit = (progs i1).circuit ++ (progs i2).circuit)
     (hn : (progs i12).initN = (progs i1).initN)
     (hir : (progs i12).initRegs = (progs i1).initRegs)
@@ -69,22 +72,49 @@ theorem concat_compositional_partial {e : Eng} {w : World} {i1 i2 i12 : Nat} {ci
     (ho1 : ∀ m ∈ openDeps circ1, m ∈ idxs (progs i1).regs)
     (ho2 : ∀ m ∈ openDeps circ2, m ∈ idxs (progs i1).regs)
     {ea eb : Eng} {wa wb : World} {ta tb : List Call}
-    (ha : run cp progs outc args e w [i1, i2] = .ok (ea, wa, ta))
-    (hb : run cp progs outc args e w [i12] = .ok (eb, wb, tb)) :
+    (hsh : effShots progs kw [i1, i2] = effShots progs kw [i12])
+    (ha : run cp progs o args kw e w [i1, i2] = .ok (ea, wa, ta))
+    (hb : run cp progs o args kw e w [i12] = .ok (eb, wb, tb)) :
     ta = tb ∧ ea.mpos = eb.mpos ∧ ea.prev = eb.prev := by
-  unfold run at ha hb
-  cases h1 : runList cp progs outc args e w [i1, i2] with
-  | error err => simp [h1] at ha
-  | ok r1 =>
-    obtain ⟨e1, w1, t1⟩ := r1
-    cases h2 : runList cp progs outc args e w [i12] with
-    | error err => simp [h2] at hb
-    | ok r2 =>
-      obtain ⟨e2, w2, t2⟩ := r2
-      simp only [h1, h2, Except.ok.injEq, Prod.mk.injEq] at ha hb
-      obtain ⟨ht, hm, hp⟩ := concat_runList hbk hc hn hir hr hne hv hf1 hf2 hd1 hd2 hsub ho1 ho2 h1 h2
-      rw [← ha.1, ← hb.1, ← ha.2.2, ← hb.2.2, ht]
-      exact ⟨rfl, hm, hp⟩
+  obtain ⟨_, t1, h1, rfl⟩ := run_ok ha
+  obtain ⟨_, t2, h2, rfl⟩ := run_ok hb
+  rw [hsh] at h1
+  obtain ⟨ht, hm, hp⟩ := concat_runList hbk hc hn hir hr hne hv hf1 hf2 hd1 hd2 hsub ho1 ho2 h1 h2
+  exact ⟨by rw [ht], hm, hp⟩
+
+/- **the two ways of running also fail together**, full statement: on every back end `run [p1, p2]`
+   succeeds iff `run [p1 ++ p2]` succeeds.  Proved below for the Fock and Gaussian engines; on the bosonic
+   engine the *model* does not cover the initialisation pass (`New` and non-Gaussian preparations in the
+   first program are `unmodelled`), and the code itself refuses a non-Gaussian preparation in a later
+   program that it accepts in the concatenation (known finding `bosonic-nongaussian-later-segment`,
+   `bosonic_later_preparation_counterexample`). -/
+
+/-- **error coincidence** (Fock/Gaussian): under the hypotheses of `concat_compositional`, if moreover `p2`
+can follow `p1` and every bound name is a free parameter of all three programs, the two-segment run
+succeeds exactly when the concatenated program does (which error is reported may differ: the
+segmented run notices a problem of `p2` only after `p1` has been executed). -/
+theorem concat_success_iff_partial {e : Eng} {w : World} {i1 i2 i12 : Nat} {circ1 circ2 : List Cmd}
+    (hbk : e.bk ≠ .bosonic)
+    (hc : (progs i12).circuit = (progs i1).circuit ++ (progs i2).circuit)
+    (hn : (progs i12).initN = (progs i1).initN)
+    (hir : (progs i12).initRegs = (progs i1).initRegs)
+    (hr : (progs i12).regs = (progs i2).regs)
+    (hfol : (progs i2).initRegs = (progs i1).regs)
+    (hne : i2 ≠ i1)
+    (hv : ∀ m ∈ idxs (progs i1).regs, w.vals i12 m = w.vals i1 m)
+    (hf1 : w.free i1 = w.free i12) (hf2 : w.free i2 = w.free i12)
+    (hargs : ∀ kv ∈ args, kv.1 ∈ (progs i1).freeNames ∧ kv.1 ∈ (progs i2).freeNames ∧ kv.1 ∈ (progs i12).freeNames)
+    (hd1 : decompList compileFuel cp (progs i1).circuit = .ok circ1)
+    (hd2 : decompList compileFuel cp (progs i2).circuit = .ok circ2)
+    (hsub : ∀ m ∈ idxs (progs i1).regs, m ∈ idxs (progs i2).regs)
+    (ho1 : ∀ m ∈ openDeps circ1, m ∈ idxs (progs i1).regs)
+    (ho2 : ∀ m ∈ openDeps circ2, m ∈ idxs (progs i1).regs)
+    (hsh : effShots progs kw [i1, i2] = effShots progs kw [i12]) :
+    (∃ r, run cp progs o args kw e w [i1, i2] = .ok r) ↔ (∃ r, run cp progs o args kw e w [i12] = .ok r) := by
+  rw [run_ok_iff, run_ok_iff, hsh]
+  have hpc : preCheck progs (effShots progs kw [i12]) [i1, i2] = preCheck progs (effShots progs kw [i12]) [i12] := by
+    simp [preCheck, hc, List.any_append]
+  rw [hpc, concat_ok_iff hbk hc hn hir hr hfol hne hv hf1 hf2 hargs hd1 hd2 hsub ho1 ho2]
 
 /-- **the hand-over delivers the latest value of each subsystem**: after a segment the engine holds, for
 every index of the program's register, the value its RegRef holds, and the next program's RegRefs
@@ -110,14 +140,14 @@ theorem compile_concat (n : Nat) (a b : List Cmd) :
 engine with the updated options (`mpos` only numbers the outcome stream), the measured values of all
 programs run since the last reset are cleared, nothing else in the world changes — so every later
 `run` behaves as on a fresh engine — and the back end receives exactly one `reset` call. -/
-theorem reset_fresh (e : Eng) (w : World) (o : List (String × Int)) :
-    (reset e w o).1 = fresh e.bk (updOpts e.opts o) e.mpos ∧
-    (∀ i ∈ e.runIds, ∀ m, (reset e w o).2.1.vals i m = none) ∧
-    (∀ i, i ∉ e.runIds → (reset e w o).2.1.vals i = w.vals i) ∧
-    (reset e w o).2.1.free = w.free ∧ (reset e w o).2.1.locked = w.locked ∧
-    (reset e w o).2.2 = [{ name := "reset", opts := updOpts e.opts o }] ∧
-    ∀ w' l, run cp progs outc args (reset e w o).1 w' l =
-            run cp progs outc args (fresh e.bk (updOpts e.opts o) e.mpos) w' l := by
+theorem reset_fresh (e : Eng) (w : World) (no : List (String × Int)) :
+    (reset e w no).1 = fresh e.bk (updOpts e.opts no) e.mpos ∧
+    (∀ i ∈ e.runIds, ∀ m, (reset e w no).2.1.vals i m = none) ∧
+    (∀ i, i ∉ e.runIds → (reset e w no).2.1.vals i = w.vals i) ∧
+    (reset e w no).2.1.free = w.free ∧ (reset e w no).2.1.locked = w.locked ∧
+    (reset e w no).2.2 = [{ name := "reset", opts := updOpts e.opts no }] ∧
+    ∀ w' l, run cp progs o args kw (reset e w no).1 w' l =
+            run cp progs o args kw (fresh e.bk (updOpts e.opts no) e.mpos) w' l := by
   refine ⟨rfl, fun i hi m => ?_, fun i hi => ?_, rfl, rfl, rfl, fun _ _ => rfl⟩
   · simp [reset, hi]
   · simp [reset, hi]
@@ -168,7 +198,7 @@ theorem decompose_fresh (h : Heap) (a : Nat) (t : Tmpl) :
     (∀ c ∈ (gateDecomposeH h a t).2, h.ops.length ≤ c.1) :=
   gateDecomposeH_fresh h a t
 
-/-! ### known finding: where the full concatenation statement still fails -/
+/-! ### the inputs on which the concatenation statement used to fail -/
 
 def gaussianCp : Compiler :=
   { name := "gaussian", prims := ["MeasureHomodyne", "Dgate", "Rgate", "Sgate", "BSgate"],
@@ -189,15 +219,15 @@ def hoProgs : Nat → Prog
        { cls := "MeasureHomodyne", kind := .meas, pars := [.num {}], regs := [2] },
        { cls := "Dgate", pars := [.sym (.meas 0) 1 {}, .num {}], regs := [1] }] }
 
-def hoOutc : Nat → List Rat := fun k => if k = 0 then [1/4] else [3/4]
+def hoOutc : Nat → List (List Rat) := fun k => if k = 0 then [[1/4]] else [[3/4]]
 
 /-- feed-forward across the segment boundary (the input on which the old enumerate-the-shots hand-over
 failed): the second segment's `q[0].par` now evaluates to the value measured on mode 0, both runs succeed
 and make the same calls; the hypotheses of `concat_compositional_partial` about open dependencies hold -/
 example :
-    (run gaussianCp hoProgs hoOutc [] (fresh .gaussian []) emptyWorld [0, 1]).toOption.map (·.2.2) =
-    (run gaussianCp hoProgs hoOutc [] (fresh .gaussian []) emptyWorld [2]).toOption.map (·.2.2) ∧
-    ((run gaussianCp hoProgs hoOutc [] (fresh .gaussian []) emptyWorld [0, 1]).toOption.map (·.2.2)).isSome ∧
+    (run gaussianCp hoProgs hoOutc [] {} (fresh .gaussian []) emptyWorld [0, 1]).toOption.map (·.2.2) =
+    (run gaussianCp hoProgs hoOutc [] {} (fresh .gaussian []) emptyWorld [2]).toOption.map (·.2.2) ∧
+    ((run gaussianCp hoProgs hoOutc [] {} (fresh .gaussian []) emptyWorld [0, 1]).toOption.map (·.2.2)).isSome ∧
     ((decompList compileFuel gaussianCp (hoProgs 1).circuit).toOption.map openDeps) = some [0] ∧
     idxs (hoProgs 0).regs = [0, 1, 2] := by
   decide +kernel
@@ -211,17 +241,31 @@ def bosProgs : Nat → Prog
       [{ cls := "Dgate", pars := [.num ⟨1/4, 0⟩, .num {}], regs := [2] },
        { cls := "Rgate", pars := [.num ⟨1/2, 0⟩], regs := [1] }] }
 
-/-- bosonic back end: the second segment starts with another `begin_circuit`, a state-changing
-call the concatenated program does not make (it wipes the state prepared by the first segment). -/
-theorem concat_bosonic_counterexample :
-    (run gaussianCp bosProgs (fun _ => []) [] (fresh .bosonic []) emptyWorld [0, 1]).toOption.map
-        (fun r => mutating r.2.2) ≠
-    (run gaussianCp bosProgs (fun _ => []) [] (fresh .bosonic []) emptyWorld [2]).toOption.map
-        (fun r => mutating r.2.2) ∧
-    (run gaussianCp bosProgs (fun _ => []) [] (fresh .gaussian []) emptyWorld [0, 1]).toOption.map
-        (fun r => mutating r.2.2) =
-    (run gaussianCp bosProgs (fun _ => []) [] (fresh .gaussian []) emptyWorld [2]).toOption.map
-        (fun r => mutating r.2.2) := by
+/-- bosonic engine (the input on which every segment used to re-initialise the simulator): the two
+segments now make the calls of the concatenated program — one `begin_circuit` from the engine, one from
+`init_circuit` of the first program, then the gates — and a non-Gaussian preparation in the second
+segment is refused in both … -/
+example :
+    (run gaussianCp bosProgs (fun _ => []) [] {} (fresh .bosonic []) emptyWorld [0, 1]).toOption.map (·.2.2) =
+    (run gaussianCp bosProgs (fun _ => []) [] {} (fresh .bosonic []) emptyWorld [2]).toOption.map (·.2.2) ∧
+    ((run gaussianCp bosProgs (fun _ => []) [] {} (fresh .bosonic []) emptyWorld [0, 1]).toOption.map
+        fun r => r.2.2.map (·.name)) = some ["begin_circuit", "begin_circuit", "displacement", "rotation", "state"] := by
+  decide +kernel
+
+def bosPrepProgs : Nat → Prog
+  | 0 => { initN := 3, initRegs := regs3, regs := regs3, circuit :=
+      [{ cls := "Dgate", pars := [.num ⟨1/4, 0⟩, .num {}], regs := [2] }] }
+  | _ => { initN := 3, initRegs := regs3, regs := regs3, circuit :=
+      [{ cls := "Fock", kind := .plain, pars := [.num ⟨1, 0⟩], regs := [1] }] }
+
+/-- bosonic engine: a non-Gaussian preparation in a program that follows another one is refused
+(`NotImplementedError`), and the gaussian-only first program alone runs (known finding
+`bosonic-nongaussian-later-segment`: the same preparation is accepted in a first/concatenated program) -/
+theorem bosonic_later_preparation_counterexample :
+    (run { gaussianCp with prims := "Fock" :: gaussianCp.prims } bosPrepProgs (fun _ => []) [] {} (fresh .bosonic [])
+        emptyWorld [0, 1]).toOption.isNone ∧
+    (run { gaussianCp with prims := "Fock" :: gaussianCp.prims } bosPrepProgs (fun _ => []) [] {} (fresh .bosonic [])
+        emptyWorld [0]).toOption.isSome := by
   decide +kernel
 
 /-! ### non-vacuity -/
@@ -242,38 +286,68 @@ def exProgs : Nat → Prog
        { cls := "Xgate", pars := [.sym (.meas 2) (-1) {}], regs := [1] }] }
 
 def exArgs : List (String × Rat) := [("a", 1/8)]
-def exOutc : Nat → List Rat := fun _ => [1/2]
+def exOutc : Nat → List (List Rat) := fun _ => [[1/2]]
 def trace (r : Except Err (Eng × World × List Call)) : Option (List Call) := r.toOption.map (·.2.2)
 
 /-- seq/concat: both runs succeed, make 10 calls (begin_circuit, squeeze(−1/4), the four daggered
 products of S2gate in reverse order, measure_homodyne, displacement(−1/4), state) and agree; the
 second program's compiled circuit is closed -/
-example : trace (run gaussianCp exProgs exOutc exArgs (fresh .gaussian []) emptyWorld [0, 1]) =
-      trace (run gaussianCp exProgs exOutc exArgs (fresh .gaussian []) emptyWorld [2]) ∧
-    ((trace (run gaussianCp exProgs exOutc exArgs (fresh .gaussian []) emptyWorld [0, 1])).map List.length) = some 9 ∧
+example : trace (run gaussianCp exProgs exOutc exArgs {} (fresh .gaussian []) emptyWorld [0, 1]) =
+      trace (run gaussianCp exProgs exOutc exArgs {} (fresh .gaussian []) emptyWorld [2]) ∧
+    ((trace (run gaussianCp exProgs exOutc exArgs {} (fresh .gaussian []) emptyWorld [0, 1])).map List.length) = some 9 ∧
     ((decompList compileFuel gaussianCp (exProgs 1).circuit).toOption.map openDeps) = some [] ∧
     ((decompList compileFuel gaussianCp (exProgs 0).circuit).toOption.map fun c => c.map fun x => (x.cls, x.dagger, x.regs)) =
       some [("Sgate", true, [2]), ("BSgate", false, [2, 0]), ("Sgate", false, [0]), ("Sgate", true, [2]),
             ("BSgate", true, [2, 0])] := by
   decide +kernel
 
+/-- error coincidence: the example programs satisfy the extra hypotheses of `concat_success_iff_partial`
+(can follow, bound names known everywhere, open dependencies inside the register), and a session in which
+both ways fail together: binding an unknown name -/
+example : (exProgs 1).initRegs = (exProgs 0).regs ∧
+    (∀ kv ∈ exArgs, kv.1 ∈ (exProgs 0).freeNames ∧ kv.1 ∈ (exProgs 1).freeNames ∧ kv.1 ∈ (exProgs 2).freeNames) ∧
+    (trace (run gaussianCp exProgs exOutc [("b", 1)] {} (fresh .gaussian []) emptyWorld [0, 1])).isNone ∧
+    (trace (run gaussianCp exProgs exOutc [("b", 1)] {} (fresh .gaussian []) emptyWorld [2])).isNone := by
+  decide +kernel
+
 /-- reset: after a run on three modes the engine has a previous register, samples and a run list;
 reset clears them -/
 def afterRun : Option (Eng × World) :=
-  (run gaussianCp exProgs exOutc exArgs (fresh .gaussian [("cutoff_dim", 5)]) emptyWorld [2]).toOption.map
+  (run gaussianCp exProgs exOutc exArgs {} (fresh .gaussian [("cutoff_dim", 5)]) emptyWorld [2]).toOption.map
     fun r => (r.1, r.2.1)
 
 example : (afterRun.map fun r => (r.1.runIds, r.1.prev.isSome)) = some ([2], true) ∧
-    (afterRun.map fun r => (r.1.samples, r.2.vals 2 2)) = some (some [1/2], some [1/2]) ∧
+    (afterRun.map fun r => (r.1.samples, r.2.vals 2 2)) = some (some [[1/2]], some [1/2]) ∧
     (afterRun.map fun r => ((reset r.1 r.2 [("cutoff_dim", 7)]).1.runIds, (reset r.1 r.2 [("cutoff_dim", 7)]).1.opts)) =
       some ([], [("cutoff_dim", 7)]) ∧
     (afterRun.map fun r => ((reset r.1 r.2 []).2.1.vals 2 2, (reset r.1 r.2 []).1.prev.isSome)) = some (none, false) := by
   decide +kernel
 
+/-- run options: two shots (keyword over the program's own `shots = 3`), state of modes (2, 0) only: the
+measurement call carries `shots = 2`, the RegRef and `Engine.samples` hold both shots, the `state` query names
+the modes; post-selection or feed-forward together with several shots is refused before anything runs -/
+def shotProgs : Nat → Prog
+  | 0 => { initN := 3, initRegs := regs3, regs := regs3, shots := some 3, circuit :=
+      [{ cls := "MeasureHomodyne", kind := .meas, pars := [.num {}], regs := [2] }] }
+  | _ => { initN := 3, initRegs := regs3, regs := regs3, circuit :=
+      [{ cls := "MeasureHomodyne", kind := .meas, pars := [.num {}], regs := [2], sel := some [1/2] }] }
+
+example :
+    ((run gaussianCp shotProgs (fun _ => [[1/4, 3/4]]) [] { shots := some 2, modes := some [2, 0] } (fresh .gaussian [])
+        emptyWorld [0]).toOption.map fun r => r.2.2.map fun c => (c.name, c.shots, c.modes)) =
+      some [("begin_circuit", none, []), ("measure_homodyne", some 2, [2]), ("state", none, [2, 0])] ∧
+    ((run gaussianCp shotProgs (fun _ => [[1/4, 3/4]]) [] { shots := some 2, modes := some [2, 0] } (fresh .gaussian [])
+        emptyWorld [0]).toOption.map fun r => (r.1.samples, r.2.1.vals 0 2)) = some (some [[1/4], [3/4]], some [1/4, 3/4]) ∧
+    effShots shotProgs {} [1, 0] = 3 ∧ effShots shotProgs {} [0, 1] = 3 ∧ effShots shotProgs {} [1] = 1 ∧
+    (run gaussianCp shotProgs (fun _ => [[1/2, 1/2]]) [] {} (fresh .gaussian []) emptyWorld [0, 1]).toOption.isNone ∧
+    (run gaussianCp shotProgs (fun _ => [[1/2]]) [] { modes := some [] } (fresh .gaussian []) emptyWorld [1]).toOption.map
+        (fun r => r.2.2.map (·.name)) = some ["begin_circuit", "measure_homodyne"] := by
+  decide +kernel
+
 /-- rerun: the world left by the first run differs from the initial one (a measured value is stored),
 and the hypotheses of `rerun_same_trace` hold for program 2 -/
 example : ((decompList compileFuel gaussianCp (exProgs 2).circuit).toOption.map openDeps) = some [] ∧
-    ((run gaussianCp exProgs exOutc exArgs (fresh .gaussian []) emptyWorld [2]).toOption.map fun r => r.2.1.vals 2 2) =
+    ((run gaussianCp exProgs exOutc exArgs {} (fresh .gaussian []) emptyWorld [2]).toOption.map fun r => r.2.1.vals 2 2) =
       some (some [1/2]) := by
   decide +kernel
 
